@@ -35,6 +35,7 @@ hash of (program IR, history)."
         ctx.check_all::<SemCase, _, _>(SUB, Vec::<SemCase>::new(), |case: &SemCase, obs: &mut Obs| {
             run_single("C21-replay", case, obs)
         });
+        replay_probe(ctx, "C21-replay");
         return;
     }
     let tier = ctx.tier();
@@ -105,8 +106,8 @@ hash of (program IR, history)."
             break;
         }
     }
-    // samples for the evidence file
     report_failures(ctx, SUB, &batch_name, all_failures, tier);
+    run_probes(ctx, &format!("{batch_name}-probes"), &mut stats);
     ctx.extra.insert("coverage_table".into(), cov.to_json());
     ctx.extra.insert("pipeline".into(), stats_json(&stats));
     ctx.extra.insert("programs_generated".into(), json!(generated));
@@ -150,4 +151,62 @@ pub fn report_failures(ctx: &mut Ctx, sub: &str, batch_name: &str, failures: Vec
         }
         ctx.report(sub, &fl, serde_json::to_value(&case).unwrap());
     }
+}
+
+pub const SUB_PROBE: &str = "known-probe";
+
+/// Re-confirm every known finding on the current tree with its fixed minimal program; a probe
+/// that fails is reported under the finding's exact signature (KNOWN-FINDING when listed).
+pub fn run_probes(ctx: &mut Ctx, batch_name: &str, stats: &mut SemStats) {
+    let probes = crate::known::probes();
+    let mut prepared = vec![];
+    let mut idx = vec![];
+    for (k, pr) in probes.iter().enumerate() {
+        if let Some(p) = prepare_opts(pr.case.clone(), stats, true) {
+            prepared.push(p);
+            idx.push(k);
+        }
+    }
+    if prepared.is_empty() {
+        return;
+    }
+    let mut evals = vec![];
+    let fails = match run_prepared(batch_name, &prepared, stats, |k, si, p, r| {
+        evals.push((k, hash64(&(&p.case.prog, &p.case.scripts[si])), r.is_ok()));
+    }) {
+        Ok(f) => f,
+        Err(e) => {
+            ctx.inconclusive(format!("probe batch infrastructure failure: {e}"));
+            return;
+        }
+    };
+    for (_, h, _) in &evals {
+        let mut obs = Obs::default();
+        obs.nontrivial(true);
+        obs.class("known-finding-probe");
+        ctx.record(SUB_PROBE, *h, &obs, || serde_json::Value::Null);
+    }
+    for f in fails {
+        let Some(pi) = prepared.iter().position(|p| p.case == f.case) else { continue };
+        let pr = &probes[idx[pi]];
+        let msg = format!("{}\n{}", pr.what, describe(&f.case, f.script_idx, &f.mismatch));
+        ctx.report(SUB_PROBE, &Fail::new(pr.sig, msg), serde_json::to_value(&f.case).unwrap());
+    }
+}
+
+pub fn replay_probe(ctx: &mut Ctx, batch: &str) {
+    let batch = batch.to_string();
+    ctx.check_all::<SemCase, _, _>(SUB_PROBE, Vec::<SemCase>::new(), move |case: &SemCase, obs: &mut Obs| {
+        match run_single(&batch, case, obs) {
+            Ok(()) => Ok(()),
+            Err(f) => {
+                let sig = crate::known::probes()
+                    .into_iter()
+                    .find(|p| p.case == *case)
+                    .map(|p| p.sig.to_string())
+                    .unwrap_or(f.sig.clone());
+                Err(Fail::new(sig, f.msg))
+            }
+        }
+    });
 }
